@@ -31,7 +31,7 @@ func init() {
 			{"DOCID-VERIFY", ruleDocIDVerify},
 		},
 		Meta: eng.PropMeta{
-			Explanation: "Decides the structural conditions of 'identifiers are pure functions of content': (PURITY) the call-graph cones of Document.GenerateDocID, setSchemaIDs/generateSetID and the cid/docID constructors read no clock, randomness, environment, host identity or mutable package state; (CANONICAL-CBOR) Document.Bytes encodes with the encoder derived from cbor.CanonicalEncOptions(), omits nil fields (toMap(true)) and GenerateDocID appends the schema root before hashing; (MAPRANGE) every range over a Go map inside those cones is order-insensitive by an accepted idiom (keyed writes, set insert/delete, commutative accumulation, append-then-sort) or is a tabled exception with its reason; (SLICE-REMOVE) every hand-rolled 'remove element i' (make(len-1) + two copies) copies old[:i] and old[i+1:] — the proviso under which the pruning loop of getSchemaSets is confluent; (SETID-SORTED) generateSetID sorts the set by name before encoding it; (NONCE) the counter nonce is zero on create so genesis blocks are reproducible. (NORMALISE-IDENTITY) a value that already has the field's Go type passes the client package's normalisers unchanged; (SETID-NO-OVERWRITE) a schema's set id is stored only after its current assignment was looked up, so a circle found earlier is not split; (SCHEMA-SHAPE-LOCAL) in the SDL parser's finalizeRelations every addition to a schema's field list must be reachable whether or not the related type is declared in the same SDL (fires: known finding).",
+			Explanation: "Decides the structural conditions of 'identifiers are pure functions of content': (PURITY) the call-graph cones of Document.GenerateDocID, setSchemaIDs/generateSetID and the cid/docID constructors read no clock, randomness, environment, host identity or mutable package state; (CANONICAL-CBOR) Document.Bytes encodes with the encoder derived from cbor.CanonicalEncOptions(), omits nil fields (toMap(true)) and GenerateDocID appends the schema root before hashing; (MAPRANGE) every range over a Go map inside those cones is order-insensitive by an accepted idiom (keyed writes, set insert/delete, commutative accumulation, append-then-sort) or is a tabled exception with its reason; (SLICE-REMOVE) every hand-rolled 'remove element i' (make(len-1) + two copies) copies old[:i] and old[i+1:] — the proviso under which the pruning loop of getSchemaSets is confluent; (SETID-SORTED) generateSetID sorts the set by name before encoding it; (NONCE) the counter nonce is zero on create so genesis blocks are reproducible. (NORMALISE-IDENTITY) a value that already has the field's Go type passes the client package's normalisers unchanged; (SETID-NO-OVERWRITE) a schema's set id is stored only after its current assignment was looked up, so a circle found earlier is not split; (SCHEMA-SHAPE-LOCAL) in the SDL parser's finalizeRelations every addition to a schema's field list must be reachable whether or not the related type is declared in the same SDL (fires: known finding). (RECURSION-RESULT) no self-recursive value-returning function in the schema/id code drops the result of its recursive call (a by-value counter threaded through the recursion would otherwise hand out set ids twice).",
 			NotDecided:  "equality of identifiers across construction routes for all values (JSON vs map normalisation of numbers, times), and across partitions of the SDL for every relation graph beyond the confluence proviso",
 		},
 	})
